@@ -11,7 +11,11 @@ git -C /repo worktree add --detach "$W" HEAD -q || exit 3
 cd "$W"
 PYTHONPATH="$W" /venv/bin/python "$SRC/demo.py" > /tmp/vt-demo-clean.$ID.out 2>&1; demo_clean=$?
 git apply "$SRC/patch.diff" || { echo "APPLY FAILED"; git -C /repo worktree remove --force "$W"; exit 3; }
-tests=$(/venv/bin/python -m pytest -q -p no:cacheprovider 2>&1 | tail -1)
+tests=""
+for try in 1 2 3 4; do   # the client tests bind a fixed TCP port (8881): retry when another run holds it
+  tests=$(/venv/bin/python -m pytest -q -p no:cacheprovider 2>&1 | tail -1)
+  case "$tests" in *failed*|*error*) sleep 3;; *) break;; esac
+done
 PYTHONPATH="$W" /venv/bin/python "$SRC/demo.py" > /tmp/vt-demo-changed.$ID.out 2>&1; demo_changed=$?
 mkdir -p "$V/.scratch/mut" "$V/seeded/$ID"
 results=""
